@@ -71,6 +71,9 @@ type Exec struct {
 	assertsSeen map[string]int
 	params map[string]int
 	nCtx int
+	udp *udpState
+	blockedForever bool
+	watchdogLabel string
 	hmacApps map[string][]*Term
 	curPos string
 	randLog [][]*Term
